@@ -50,19 +50,33 @@ def fnSubstringAfter (a b : String) : String :=
   | some i => String.ofList (a.toList.drop (i + b.length))
   | none => ""
 
-/-- §4.2 substring: the characters at positions `p` (1-based) with
-`round(start) ≤ p < round(start) + round(length)`; XPath `round` is floor(x + 0.5) -/
-def xround (x : F) : F := floor (add x (div (ofNat 1) (ofNat 2)))
+/-- the integer closest to `x`, the one closer to +∞ when there are two (§4.4).  *Not*
+`floor(x + 0.5)`: that sum is itself rounded (0.49999999999999994 + 0.5 = 1; odd integers above
+2^52 come out one too high).  `x - floor(x)` is exact.  NaN and ±∞ are returned unchanged
+(`∞ - ∞` is NaN, which is not ≥ 0.5).  The sign of a zero result is that of `floor`/`+`: see `xround`. -/
+def roundHalfUp (x : F) : F :=
+  let r := floor x
+  if le (div (ofNat 1) (ofNat 2)) (sub x r) then add r (ofNat 1) else r
+
+/-- §4.4 `round`: `roundHalfUp`, and "if the argument is less than zero, but greater than or equal
+to -0.5, then negative zero is returned" -/
+def xround (x : F) : F :=
+  let res := roundHalfUp x
+  if lt x (ofNat 0) && eq res (ofNat 0) then mul (ofNat 0) (ofInt (-1)) else res
+
+/-! §4.2 substring: the characters at positions `p` (1-based) with
+`round(start) ≤ p < round(start) + round(length)`.  Positions are ≥ 1, so the sign of a zero bound
+is immaterial; the bounds are stated with `roundHalfUp`. -/
 
 def fnSubstring3 (s : String) (start len : F) : String :=
-  let rs := xround start
-  let hi := add rs (xround len)
+  let rs := roundHalfUp start
+  let hi := add rs (roundHalfUp len)
   String.ofList ((s.toList.zipIdx).filterMap (fun (c, i) =>
     let p : F := ofNat (i + 1)
     if le rs p && lt p hi then some c else none))
 
 def fnSubstring2 (s : String) (start : F) : String :=
-  let rs := xround start
+  let rs := roundHalfUp start
   String.ofList ((s.toList.zipIdx).filterMap (fun (c, i) =>
     let p : F := ofNat (i + 1)
     if le rs p then some c else none))
